@@ -90,7 +90,8 @@ Definition hstep (cfg : hcfg) (h : hh) (o : hop) : hh + list Z :=
           let efs := if ef <=? 0 then hc_efs cfg else ef in
           let small := (hh_peak h <=? 2 * hc_M cfg) && (hh_peak h <=? hc_efc cfg) && (hh_peak h <=? efs) in
           let plain := match r_docids rq with [] => negb (F32.gtb (r_thr rq) F32.zero) | _ => false end in
-          let snd_ok := sound_results p (hh_live h) None rq single out &&
+          let sound := sound_results p (hh_live h) None rq single out in
+          let found_ok :=
                         (* non-empty while a live vector exists *)
                         (match single with
                          | Some _ => negb plain || (match hh_live h with [] => true | _ => negb (match out with [] => true | _ => false end) end)
@@ -99,15 +100,21 @@ Definition hstep (cfg : hcfg) (h : hh) (o : hop) : hh + list Z :=
                         (match single with
                          | Some pq => negb small || complete_results p (hh_live h) rq pq out
                          | None => true end) in
+          let snd_ok := sound && found_ok in
+          (* a live vertex that is missed while the graph (identical in model and implementation) has a
+             resident vertex unreachable through the bottom layer is the listed finding (nearest-M
+             pruning / Flush without reconnecting), seen through the non-emptiness or exactness clause *)
+          let missed v := if sound && negb (all_reachable s) then v_known 1 else v in
           if negb (err =? 0) then inr (verdict false false [hh_i h; 0])
           else match xo_n xo with
                | None => inr (verdict false snd_ok [hh_i h; E_PANIC])
                | Some n =>
                    if hh_tainted h || (xo_tie xo && negb (xo_single xo)) then
-                     (if snd_ok then mk s (hh_live h) 1 (hh_tainted h) (hh_peak h) (hh_found h) else inr (v_violation [hh_i h; -1]))
+                     (if snd_ok then mk s (hh_live h) 1 (hh_tainted h) (hh_peak h) (hh_found h)
+                      else inr (if hh_tainted h then v_violation [hh_i h; -1] else missed (v_violation [hh_i h; -1])))
                    else if match_results (if xo_single xo then xo_aggfull xo else xo_agg xo) n out then
                      (if snd_ok then mk s (hh_live h) 0 false (hh_peak h) (hh_found h)
-                      else inr (v_violation (hh_i h :: -2 :: flatten_pairs (firstn n (xo_agg xo)))))
+                      else inr (missed (v_violation (hh_i h :: -2 :: flatten_pairs (firstn n (xo_agg xo))))))
                    else inr (verdict false snd_ok (hh_i h :: 0 :: flatten_pairs (firstn n (xo_agg xo))))
                end
       end
